@@ -368,8 +368,7 @@ white space, `)`), UNICODE-RANGE (`U+`/`u+`, one to six hex digits or `?`), COMM
 `*/`) and CDC. `render2` joins the lexemes with single spaces; `expectedAll` lists (type, value) with an S token between
 neighbours; a COMMENT token is not yielded when comments are off. S (any run of white space) and INVALID (which a
 space does not end) have class theorems of their own.
-Still on the classification oracle only: names with escapes or non-ASCII code points, signed integers, signed or
-fractional PERCENTAGE / DIMENSION,
+Still on the classification oracle only: names with escapes or non-ASCII code points, signed or fractional PERCENTAGE / DIMENSION,
 unquoted URLs with escapes. -/
 
 /-- **T5.6 for all token classes** (plain lexemes): a text produced from grammar tokens of the classes NUMBER,
@@ -423,8 +422,8 @@ theorem pattern_consumes_its_classes (cs : List (Nat × Nat)) (r : Re) (h : cons
 
 /-- numbers with sign and fraction, at the level of the number pattern (`{num}` = `reNUMBER`): an optional sign,
 digits (possibly none), `.`, at least one digit is matched exactly when no digit follows.
-(`number_fraction_class` is the scan-level class theorem; the PERCENTAGE / DIMENSION analogues and signed integers are
-not done.) -/
+(`number_fraction_class` is the scan-level class theorem; `number_signed_class` the one for signed integers; the PERCENTAGE / DIMENSION
+analogues are not done.) -/
 theorem number_fraction_first (sg ip : Cps) (d : Nat) (ds stop : Cps) (hsg : IsSign sg)
     (hip : ∀ c ∈ ip, isDigit c = true) (hd : ∀ c ∈ d :: ds, isDigit c = true)
     (hs : HeadIn (fun c => isDigit c = false) stop) :
@@ -439,6 +438,12 @@ theorem number_fraction_class (doC : Bool) (sg ip : Cps) (d : Nat) (ds stop : Cp
     scan false doC (sg ++ (ip ++ 46 :: d :: (ds ++ stop))) productions =
       .hit "NUMBER" (sg.length + (ip.length + (1 + (1 + ds.length)))) :=
   scan_number_frac doC sg ip d ds stop hsg hip hd hs
+
+/-- **NUMBER class, signed integer**: optional sign and digits, followed by the end of the text or a space -/
+theorem number_signed_class (doC : Bool) (sg : Cps) (d : Nat) (ds stop : Cps) (hsg : IsSign sg)
+    (hd : ∀ c ∈ d :: ds, isDigit c = true) (hs : Sep stop) :
+    scan false doC (sg ++ (d :: ds ++ stop)) productions = .hit "NUMBER" (sg.length + (d :: ds).length) :=
+  scan_number_int doC sg d ds stop hsg hd hs
 
 /-- `-12.50 ` and `.5` -/
 example : reNUMBER.first ([45] ++ ([49, 50] ++ 46 :: 53 :: ([48] ++ [32]))) = some 6 ∧
